@@ -88,8 +88,8 @@ def check_history(case, rec):
     shape = case["shape"]
     pool = []  # (command, fuzzy, snapshot)
     for i, p in enumerate(case["producers"]):
-        arr = A.make_array(p["spec"], p.get("shape") or shape)
-        if p.get("shape"):
+        arr = A.make_array(p["spec"], p["shape"] if "shape" in p else shape)
+        if "shape" in p:
             rec.label("producer_with_other_shape")
         cmd = A.stub("P%d" % i, arr, p["fuzzy"])
         pool.append([cmd, p["fuzzy"], snapshot(arr)])
@@ -227,6 +227,8 @@ IDENTITY_PARAMS = {
 @st.composite
 def history(draw):
     shape = draw(G.shapes(max_cells=12, max_rank=3))
+    if draw(st.integers(0, 11)) == 0:
+        shape = []  # results without any axis (what a scalar variable of a NetCDF file is read as): one cell
     size = 1
     for d in shape:
         size *= d
@@ -241,10 +243,10 @@ def history(draw):
         prod = {"spec": spec, "fuzzy": fuzzy}
         # a few producers hold the same cells under another shape (an extra or a dropped length-1 axis, flattened,
         # axes reversed): consumers reject the mixture or not, but may not touch the stored results either way
-        other = draw(st.sampled_from([None] * 6 + ["lead1", "trail1", "squeeze", "flat", "rev"]))
+        other = draw(st.sampled_from([None] * 6 + ["lead1", "trail1", "squeeze", "flat", "rev", "scalar"]))
         alt = {"lead1": [1] + list(shape), "trail1": list(shape) + [1], "squeeze": [d for d in shape if d != 1] or [1],
-               "flat": [size], "rev": list(shape)[::-1]}.get(other)
-        if alt and alt != list(shape) and i > 0:
+               "flat": [size], "rev": list(shape)[::-1], "scalar": [] if size == 1 else None}.get(other)
+        if alt is not None and alt != list(shape) and i > 0:
             prod["shape"] = alt
         producers.append(prod)
     nsteps = draw(st.sampled_from([1, 2, 3, 5, 8, 12, 16, 20, 25]))
